@@ -133,7 +133,7 @@ class Prop:
     def weighted_classes(self):
         # the recurrent and cross-scope classes carry most of the schedule-sensitive behaviour: drawn twice as often
         cl = list(self.get_classes())
-        return cl + [c for c in cl if c in ('rec', 'hub')]
+        return cl + [c for c in cl if c in ('rec', 'hub', 'nest3')]
 
     def gen(self, rng):
         spec = self.gen_spec(rng)
